@@ -1,3 +1,3 @@
 import SupervisorModel.Basic.DriverKit
--- stub: replaced by the property author
-def main : IO Unit := Sv.driverMain []
+import SupervisorModel.Model.RereadIO
+def main : IO Unit := Sv.driverMain [("reread", Sv.Reread.runCase)]
